@@ -56,20 +56,22 @@ type opctx struct {
 	id, k, d int
 	n        int // store calls made
 	f, g     []int
+	cg       bool // the cache-operation gate (position 3) was used
 }
 
 type world struct {
-	cfg   config
-	mu    sync.Mutex // event log, store, gates
-	evs   []tr.E
-	store map[int]int
-	gates map[int]chan struct{}
-	grp   *mux.WorkerGrp
-	facs  []mux.CacheFacade // the real facades behind the logging wrappers
-	keys  []mux.Hashed2Int
-	kid   map[interface{}]int
-	x     *qx.Exec
-	nid   int
+	cfg    config
+	mu     sync.Mutex // event log, store, gates
+	evs    []tr.E
+	store  map[int]int
+	gates  map[int]chan struct{}
+	lastOp map[int]*opctx // key id -> operation that last entered a store callback for it
+	grp    *mux.WorkerGrp
+	facs   []mux.CacheFacade // the real facades behind the logging wrappers
+	keys   []mux.Hashed2Int
+	kid    map[interface{}]int
+	x      *qx.Exec
+	nid    int
 }
 
 // ckey is a harness key type whose hash is constant: distinct keys, one hashed int.
@@ -146,16 +148,35 @@ type fac struct {
 func (f *fac) Peek(key interface{}) (interface{}, bool) { return f.in.Peek(key) }
 func (f *fac) Get(key interface{}) (interface{}, bool)  { return f.in.Get(key) }
 func (f *fac) Set(key interface{}, value interface{}) {
+	f.gate(key)
 	f.wd.logf(tr.E{"ev": "cset", "k": f.wd.kid[key], "v": toInt(value)})
 	f.in.Set(key, value)
 }
 func (f *fac) Delete(key interface{}) {
+	f.gate(key)
 	f.wd.logf(tr.E{"ev": "cdel", "k": f.wd.kid[key]})
 	f.in.Delete(key)
 }
 
+// gate position 3 of an operation: its handler waits just before it changes the cache.
+func (f *fac) gate(key interface{}) {
+	wd := f.wd
+	wd.mu.Lock()
+	o := wd.lastOp[wd.kid[key]]
+	var ch chan struct{}
+	if o != nil && has(o.g, 3) && !o.cg {
+		o.cg = true
+		ch = make(chan struct{})
+		wd.gates[o.id] = ch
+	}
+	wd.mu.Unlock()
+	if ch != nil {
+		<-ch
+	}
+}
+
 func newWorld(cfg config) *world {
-	wd := &world{cfg: cfg, store: map[int]int{}, gates: map[int]chan struct{}{}, kid: map[interface{}]int{},
+	wd := &world{cfg: cfg, store: map[int]int{}, gates: map[int]chan struct{}{}, lastOp: map[int]*opctx{}, kid: map[interface{}]int{},
 		x: qx.New(0)}
 	for k := 1; k <= cfg.NK; k++ {
 		key := mkKey(cfg.KT, k)
@@ -219,6 +240,7 @@ func (wd *world) call(o *opctx, fn string, k, d, pre int) (int, error) {
 	wd.mu.Lock()
 	o.n++
 	n := o.n
+	wd.lastOp[o.k] = o
 	wd.evs = append(wd.evs, tr.E{"ev": "scb", "id": o.id, "k": k, "fn": fn, "cached": cached})
 	var ch chan struct{}
 	if has(o.g, n) {
